@@ -1,4 +1,5 @@
 """C05 — selecting tests filters findings and never changes them."""
+import sys
 import common as C
 import progs
 
@@ -68,6 +69,15 @@ def run(res, ctx):
                 "scan of real bandit is compared with the filter of its own unrestricted scan (spec) and with the Lean model; non-trivial = distinct (program, selection) "
                 "where the unrestricted run has at least one finding")
     programs = [progs.make_program(rng) for _ in range(n_prog)]
+    # process-spawning calls of all three families on one page (what one check learns about a call must not leak into another: seeded change C05-m3
+    # appended to a configuration list shared by B602-B607) and multi-line calls whose lines carry nosec comments naming DIFFERENT tests, with
+    # checks reporting on different lines of the call (seeded change C05-m4 cached the nosec set per node)
+    programs.append(("import os, subprocess\nos.system('ls ' + a)\nos.execl('ls', '-l')\nos.popen('df ' + p, shell=flag)\nsubprocess.call(['ls', a])\n"
+                     "subprocess.Popen('ls', shell=True)\nwrapped(cmd, shell=True)\nos.spawnl(os.P_WAIT, 'prog')\n", ["spawn_families"]))
+    programs.append(("import os, subprocess\nos.popen('/bin/df -h ' + path,  # nosec B604\n         shell=True)  # nosec B605\n"
+                     "subprocess.call(['ls', arg],  # nosec B607\n                shell=flag)  # nosec B602\n"
+                     "subprocess.Popen('ls *',  # nosec B602\n                 shell=True)  # nosec B607\n"
+                     "subprocess.check_output('tar x',  # nosec\n                        shell=True)  # nosec B404\n", ["nosec_pairs"]))
     programs.append(("import pickle, subprocess\nimport os, telnetlib\nx = 1\n", ["import_multi2"]))
     programs.append(("import subprocess as sp\nfrom subprocess import Popen\nimport pickle\nfrom hashlib import md5\nfrom flask import Flask\n"
                      "sp.Popen(cmd, shell=True)\nPopen(cmd, shell=True)\npickle.loads(b)\nmd5(d)\napp.run(debug=True)\nassert x\n", ["alias_mix"]))
@@ -75,7 +85,20 @@ def run(res, ctx):
     d = C.Driver() if ctx["driver_ok"] else None
     try:
         sources = [p[0].encode() for p in programs]
-        full = C.batch_real_scan(scratch, sources)
+        # every selection is tried with bandit's built-in defaults AND with a configuration file holding the generated settings of every plugin
+        # (what bandit-config-generator writes): then all checks of a family are handed the SAME settings objects
+        import yaml
+        from bandit.core import extension_loader as el
+        gen_cfg = {}
+        for plg in el.MANAGER.plugins:
+            fn = plg.plugin
+            if getattr(fn, "_takes_config", None) and hasattr(sys.modules[fn.__module__], "gen_config"):
+                c = sys.modules[fn.__module__].gen_config(fn._takes_config)
+                if c is not None:
+                    gen_cfg[fn._takes_config] = c
+        cfg_file = scratch.fresh("generated.yaml", yaml.safe_dump(gen_cfg).encode())
+        full_by_cfg = {None: C.batch_real_scan(scratch, sources), "generated": C.batch_real_scan(scratch, sources, config_file=cfg_file)}
+        full = full_by_cfg[None]
         # group work by selection so each manager construction serves many files
         sels = []
         all_present = sorted({f[0] for r in full for f in r["findings"]})
@@ -87,12 +110,13 @@ def run(res, ctx):
         sels.append(("skip_B001", set(), {"B001"}))
         sels.append(("b001_vs_specific", {"B001"}, {"B301"}))
         sels.append(("b001_plugin_vs_specific", {"B001", "B101"}, {"B404"}))
-        for kind, inc, exc in sels:
+        for kind, inc, exc, cfg_kind in [(k, i, e, c) for (k, i, e) in sels for c in (None, "generated")]:
             if inc & exc:
                 continue
             profile = {"include": set(inc), "exclude": set(exc)}
+            full = full_by_cfg[cfg_kind]
             try:
-                restricted = C.batch_real_scan(scratch, sources, profile=profile)
+                restricted = C.batch_real_scan(scratch, sources, profile=profile, config_file=cfg_file if cfg_kind else None)
             except Exception as e:  # a selection the constructor rejects is not this property's business
                 res.notes.append(f"selection {sorted(inc)}/{sorted(exc)} rejected: {type(e).__name__}")
                 continue
@@ -101,13 +125,14 @@ def run(res, ctx):
             if d is not None:
                 reqs = []
                 for s in sources:
-                    rq = C.scan_request(s)
+                    rq = C.scan_request(s, plugin_cfg=gen_cfg if cfg_kind else None)
                     rq["profile"] = {"include": sorted(inc), "exclude": sorted(exc)}
                     reqs.append(rq)
                 model = d.ask_many(reqs)
             for i, (src, frs) in enumerate(programs):
                 fu, rs = full[i], restricted[i]
-                key = (src, tuple(sorted(inc)), tuple(sorted(exc)))
+                key = (src, tuple(sorted(inc)), tuple(sorted(exc)), cfg_kind)
+                res.count("config:" + str(cfg_kind))
                 res.case(key, bool(fu["findings"]), sample={"program": src, "include": sorted(inc), "exclude": sorted(exc),
                                                             "restricted": [list(f[:4]) for f in rs["findings"]]} if (i == 0 and len(res.samples) < 4) else None)
                 res.count("selection:" + kind)
